@@ -269,7 +269,7 @@ type Pool struct {
 }
 
 // NewPool creates the pool; the worker is started lazily.
-func NewPool() *Pool { return &Pool{Deadline: 10 * time.Second} }
+func NewPool() *Pool { return &Pool{Deadline: 4 * time.Second} }
 
 func (p *Pool) spawn() (*worker, error) {
 	cmd := exec.Command(os.Args[0], "-test.run", "^$")
